@@ -190,11 +190,37 @@ def translate_fns():
     return text, methods
 
 
+# (kinds, part): the XMCD constructor is slow (deep copies), its instances are spread over three processes
+GROUPS = [(["cmpa", "cfpa", "romcfg", "cmactable", "tz"], None), (["bca", "fcf", "fcb", "memcfg", "fuses"], None),
+          (["xmcd"], [0, 3]), (["xmcd"], [1, 3]), (["xmcd"], [2, 3])]
+
+
+def dump_database():
+    """the dump, taken by several implementation processes (one group of kinds each) and merged in a fixed order"""
+    import concurrent.futures
+    with concurrent.futures.ThreadPoolExecutor(max_workers=len(GROUPS)) as ex:
+        parts = list(ex.map(lambda g: vlib.run_impl("c12_impl.py", {"op": "dump", "kinds": g[0], "part": g[1]}, timeout=1800), GROUPS))
+    layouts, inst, index = [], [], {}
+    for part in parts:
+        remap = {}
+        for li, d in enumerate(part["layouts"]):
+            key = json.dumps(d, sort_keys=True)
+            if key not in index:
+                index[key] = len(layouts)
+                layouts.append(d)
+            remap[li] = index[key]
+        inst += [[k, f, r, s, remap[li]] for (k, f, r, s, li) in part["instances"]]
+    inst.sort(key=lambda i: (KINDS.index(i[0]) if i[0] in KINDS else len(KINDS), i[1], i[2], i[3]))
+    known = {k for (ks, _) in GROUPS for k in ks}
+    if {d["kind"] for d in layouts} - known:
+        raise ValueError("kind outside the dump groups")
+    return layouts, inst
+
+
 def regen():
     fns, methods = translate_fns()
     vlib.write_if_changed(os.path.join(vlib.COQ, "Gen", "GenAreaFns.v"), fns)
-    dump = vlib.run_impl("c12_impl.py", {"op": "dump"}, timeout=1800)
-    layouts, inst = dump["layouts"], dump["instances"]
+    layouts, inst = dump_database()
     out = [HEADER]
     areas, tzs = [], []
     amap = {}
